@@ -352,6 +352,10 @@ pub fn vx_children_live(n: &rowan::SyntaxNode) -> (r: VxLiveIter<rowan::SyntaxEl
 impl VxDisplay for rowan::SyntaxText {
     open spec fn display_spec(&self) -> Seq<char> { self@ }
 }
+/// `Display for SyntaxNode` writes the text of the subtree
+impl VxDisplay for rowan::SyntaxNode {
+    open spec fn display_spec(&self) -> Seq<char> { rowan::tree_text(self.tree()) }
+}
 
 /// R-method-map (unit deb822edit): `node.into()` (impl From<SyntaxNode> for SyntaxElement) => vx_node_into(node)
 pub fn vx_node_into(n: rowan::SyntaxNode) -> (r: rowan::SyntaxElement)
